@@ -37,6 +37,9 @@ M = [
  ("c08-stalemate-scored-as-mate", "src/search.rs", "        if self.move_generator.is_in_check(board) {\n            // Prefer shorter mates", "        if true {\n            // Prefer shorter mates", ["C08","C05"]),
  ("c09-threshold-one", "src/repetition.rs", "                if count >= 2 {", "                if count >= 1 {", ["C09"]),
  ("c09-threshold-three", "src/repetition.rs", "                if count >= 2 {", "                if count >= 3 {", ["C09"]),
+ ("c09-draw-only-one-ply-below-root", "src/search.rs", "if ply > 0 && self.is_draw_by_repetition(board) {", "if ply == 1 && self.is_draw_by_repetition(board) {", ["C09"]),
+ ("c09-draw-not-at-odd-plies-above-one", "src/search.rs", "if ply > 0 && self.is_draw_by_repetition(board) {", "if ply > 0 && (ply < 3 || ply % 2 == 0) && self.is_draw_by_repetition(board) {", ["C09"]),
+ ("c09-draw-only-above-the-horizon-or-ply-one", "src/search.rs", "if ply > 0 && self.is_draw_by_repetition(board) {", "if ply > 0 && (depth > 0 || ply == 1) && self.is_draw_by_repetition(board) {", ["C09"]),
  ("c09-history-not-cleared", "src/uci.rs", "                self.board = Board::default();\n                self.searcher.clear_history();\n", "                self.board = Board::default();\n", ["C09"]),
  ("c10-knight-file-mask", "src/bitboard.rs", "shift_left(*self & !(FILE_G | FILE_H), 10)", "shift_left(*self & !(FILE_H), 10)", ["C10","C01"]),
  ("c10-between-exclusive-inclusive", "src/lookup.rs", "            true => self.inclusive_between_lookup[from as usize][to as usize],\n            false => self.exclusive_between_lookup[from as usize][to as usize],", "            true => self.exclusive_between_lookup[from as usize][to as usize],\n            false => self.inclusive_between_lookup[from as usize][to as usize],", ["C10","C01"]),
